@@ -304,6 +304,42 @@ def param_default(func, name):
     return None
 
 
+def repo_resolver(repo, exclude=()):
+    """resolver(call) -> FunctionDef for calls of repository code: self.m / cls.m relative to the class the call is written in, Class.m for any class of the
+    package, f() for a function of the calling module or a nested function of the calling function.  `exclude`: qualified names never resolved."""
+    classes = {}
+    for (m, q), c in repo.classes().items():
+        classes.setdefault(c.name, []).append((m, q))
+
+    def resolve(call):
+        f = call.func
+        mod = getattr(call, '_module', None)
+        if isinstance(f, ast.Attribute) and isinstance(f.value, ast.Name):
+            base = f.value.id
+            if base in ('self', 'cls') and getattr(call, '_cls', None) is not None and mod is not None:
+                key = (mod.name, '%s.%s' % (call._cls._qualname, f.attr))
+            elif base in classes and len(classes[base]) == 1:
+                key = (classes[base][0][0], '%s.%s' % (classes[base][0][1], f.attr))
+            else:
+                return None
+        elif isinstance(f, ast.Name) and mod is not None:
+            fn = getattr(call, '_func', None)
+            key = None
+            while fn is not None:
+                if repo.has_func(mod.name, '%s.%s' % (fn._qualname, f.id)):
+                    key = (mod.name, '%s.%s' % (fn._qualname, f.id))
+                    break
+                fn = getattr(fn, '_func', None)
+            if key is None:
+                key = (mod.name, f.id)
+        else:
+            return None
+        if '%s.%s' % key in exclude or key[1] in exclude or not repo.has_func(*key):
+            return None
+        return repo.func(*key)
+    return resolve
+
+
 def flow_texts(func):
     """Statement texts of a function after forward substitution of single-use temporaries (`t = E; use(t)` in the next statement of the same block
     -> `use(E)`): rules that describe a small function by what it computes match `n = self.read_int(); return self.read(n)` and
